@@ -30,6 +30,7 @@ type Obligation struct {
 	Inputs map[string]string // SMT constant -> source-level input name
 	// filled by the discharger
 	Result SolveResult
+	Live   bool // the path's assumptions are satisfiable (vacuity guard)
 }
 
 type heapKeyInfo struct{ sort Sort }
@@ -75,6 +76,7 @@ type Exec struct {
 	specErrs []string
 	pureMemo map[string]pureMemo
 	lastCallName string
+	closesMemo int
 	recvSelf *specBinding
 	assumedClauses []string
 	curLoop *Loop
